@@ -283,7 +283,14 @@ func (c *Ctx) Fail(kind, clause, input, impl, model string) {
 		c.KnownHit[f.ID]++
 		return
 	}
-	if len(c.Violations) >= c.maxViol {
+	// separate caps: correspondence mismatches must never crowd out a property violation
+	same := 0
+	for _, v := range c.Violations {
+		if v.Kind == kind {
+			same++
+		}
+	}
+	if same >= c.maxViol {
 		return
 	}
 	v := Violation{Property: c.Prop, Kind: kind, Clause: clause, Input: input, Impl: impl, Model: model}
